@@ -27,6 +27,8 @@ REG = [
     ("AddUnit", ("length", "centimetre", "cm", "%f*100.0", "%f/100.0"), {}),
     ("AddUnitBase", ("time", "second", "s"), {}),
     ("AddCategory", ("length", "length"), {}),
+    ("AddUnitBase", ("Unknown", "<unknown>", "<unknown>"), {}),
+    ("AddCategory", ("Unknown", "Unknown"), {"valid_units": ["<unknown>"]}),
     ("AddCategory", ("depth", "length"), {"valid_units": ["m"], "default_unit": "m"}),
     ("AddUnit", ("time", "minute", "min", "%f/60.0", "%f*60.0"), {}),
     ("AddCategory", ("time", "time"), {}),
@@ -58,7 +60,7 @@ KINDS = [
     "GetDefaultCategory", "GetDefaultUnit/Value", "GetUnits", "GetBaseUnit", "GetCategoryInfo", "CheckCategoryUnit", "CheckQuantityTypeUnit", "GetQuantityType", "mul", "add", "sub-reversed", "div",
     "Array.IsValid", "Array.GetValues", "FixedArray", "FractionScalar", "ObtainQuantity", "ObtainQuantity(u)", "Quantity(c,u)", "derived-sum", "derived-product", "CreateCopy(unit)", "pickle",
     "GetUnitName", "FindUnitCase", "CheckValueForCategory", "quantity.GetValidUnits", "ChangeScalars", "compare",
-    "ObtainQuantity(u,c,caption)", "ObtainQuantity(u,None,caption)", "GetUnits()/GetInfos()", "GetInfo", "FindSimilarUnitMatches", "IsValidCategory/CheckQuantityType", "quantity getters", "db.Sum/Multiply",
+    "Unknown-type conversions", "Unknown-type values", "ObtainQuantity(u,c,caption)", "ObtainQuantity(u,None,caption)", "GetUnits()/GetInfos()", "GetInfo", "FindSimilarUnitMatches", "IsValidCategory/CheckQuantityType", "quantity getters", "db.Sum/Multiply",
 ]  # fmt: skip
 
 
@@ -195,6 +197,22 @@ def run_query(db, q):
         elif kind == "compare":
             a, b = Scalar(c, x, u), Scalar(c2, 2.0, v)
             r = [a < b, a == b, a >= b]
+        elif kind == "Unknown-type conversions":
+            # the accept-anything quantity type: unit labels (registered for another type, or not at all) pass
+            # through unchanged - and asking must leave no trace (the same labels are asked about right after)
+            r = [db.Convert("Unknown", u, v, x), db.Convert("Unknown", "weird label", "<unknown>", x), db.Convert("Unknown", "<unknown>", v, [x, 1.0]),
+                 db.GetQuantityType("weird label"), db.GetQuantityType(v), db.GetDefaultCategory("weird label")]
+            try:
+                db.CheckQuantityTypeUnit(db.GetCategoryQuantityType(c), "weird label")
+                r.append("accepted")
+            except Exception as e:
+                r.append(H.family(e))
+        elif kind == "Unknown-type values":
+            from barril.units import GetUnknownQuantity
+
+            su = Scalar(GetUnknownQuantity("a caption"), x)
+            r = [su, su.GetValue("weird label"), su.GetValue(v), Scalar(x, "<unknown>").GetValue("other label"), db.GetQuantityType("weird label"), db.GetQuantityType("other label"),
+                 sorted(k for k in db.unit_to_unit_info if "label" in k)]
         elif kind in ("ObtainQuantity(u,c,caption)", "ObtainQuantity(u,None,caption)"):
             # the rarely used third argument: captioned and caption-less requests for one (category, unit) are
             # different quantities and must not answer for each other
